@@ -176,6 +176,8 @@ class Gen(object):
             nullable = rng.random() < 0.4
         if nullable and kind != 'Boolean':
             attrs['null'] = True
+        if self.cfg.get('plain_fields'):
+            return f
         if kind in spec.FK_KINDS:
             if rng.random() < 0.2 and kind == 'ForeignKey':
                 attrs['db_index'] = False
@@ -501,6 +503,13 @@ class Gen(object):
             targets = ['%s.%s' % (a, mm['name'])
                        for a in sorted(state['apps'])
                        for mm in state['apps'][a]['models']]
+            # a relation to a model that is itself created during the
+            # history would need a declared cross-app dependency (C09's
+            # subject): not generated here
+            targets = [t for t in targets
+                       if t not in getattr(self, 'new_model_refs', ())]
+            if not targets:
+                return None
             if self.cfg['m2m'] and rng.random() < 0.4:
                 n = self.free_field_name(m, M2M_NAMES)
                 if n is None:
@@ -595,7 +604,9 @@ class Gen(object):
 
     def mut_ChangeField(self, state, app, models, rows):
         rng = self.rng
-        cands = [(m, f) for m in models for f in m['fields']]
+        cands = [(m, f) for m in models for f in m['fields']
+                 if not (self.cfg.get('change_attrs')
+                         and f['kind'] == 'ManyToMany')]
         if not cands:
             return None
         m, f = rng.choice(cands)
@@ -620,6 +631,10 @@ class Gen(object):
             choices.append('type')
         if not self.cfg['db_column']:
             choices.remove('db_column')
+        if self.cfg.get('change_attrs'):
+            choices = [c for c in choices if c in self.cfg['change_attrs']]
+            if not choices:
+                return None
         k = rng.choice([1, 1, 2])
         picked = rng.sample(choices, min(k, len(choices)))
         col = spec.column_name(f)
@@ -818,7 +833,12 @@ class Gen(object):
         name = self.rng.choice(free)
         others = ['%s.%s' % (a, mm['name']) for a in sorted(state['apps'])
                   for mm in state['apps'][a]['models']]
+        others = [t for t in others
+                  if t not in getattr(self, 'new_model_refs', ())]
         m = self.gen_model(app, name, others)
+        if not hasattr(self, 'new_model_refs'):
+            self.new_model_refs = set()
+        self.new_model_refs.add('%s.%s' % (app, name))
         return {'op': 'NewModel', 'model': m}
 
     def mut_SQLMutation(self, state, app, models, rows):
